@@ -242,6 +242,8 @@ def _piecewise_pipe(rep, tag, wit, cons, R, qe, hse, hee, k, mn, m, exact=False)
         rep.prove('pipe/piecewise-continuity-%s/%s' % (nm, tag), cons, zabs(cub - other) <= rv(1e-12) * ke, wit, 'link',
                   sample='cubic piece meets its neighbour at %s (|diff| <= 1e-12 k)' % nm)
     f = z3.Function('pow_%r' % 1.852, z3.RealSort(), z3.RealSort())
+    if exact and rep.tier != 'thorough':
+        return   # two-point monotonicity over symbolic k, m with the cubic piece takes z3 ~20 s: thorough tier only (120 s budget)
     _odd_increasing(rep, 'pipe-piecewise', tag, wit, cons, lambda x: _subst(loss, qe, x), qe, knots=[f(q1c), f(q2c)])
 
 
